@@ -275,3 +275,49 @@ mod imp {
 }
 
 pub use imp::Arena;
+
+/// A multi-GiB zero-filled mapping (untouched pages cost no memory) with a few
+/// bytes written. Native only.
+#[cfg(not(miri))]
+pub struct Huge {
+    base: *mut u8,
+    total: usize,
+    pub len: usize,
+}
+
+#[cfg(not(miri))]
+impl Huge {
+    pub fn new(len: usize) -> Option<Huge> {
+        unsafe {
+            let total = len + 2 * PAGE;
+            let base = libc::mmap(
+                core::ptr::null_mut(),
+                total,
+                libc::PROT_READ | libc::PROT_WRITE,
+                libc::MAP_PRIVATE | libc::MAP_ANONYMOUS | libc::MAP_NORESERVE,
+                -1,
+                0,
+            );
+            if base == libc::MAP_FAILED {
+                return None;
+            }
+            Some(Huge { base: base as *mut u8, total, len })
+        }
+    }
+    pub fn write(&mut self, at: usize, bytes: &[u8]) {
+        assert!(at + bytes.len() <= self.len);
+        unsafe { core::ptr::copy_nonoverlapping(bytes.as_ptr(), self.base.add(PAGE + at), bytes.len()) }
+    }
+    pub fn slice(&self) -> &'static [u8] {
+        unsafe { core::slice::from_raw_parts(self.base.add(PAGE), self.len) }
+    }
+}
+
+#[cfg(not(miri))]
+impl Drop for Huge {
+    fn drop(&mut self) {
+        unsafe {
+            libc::munmap(self.base as *mut libc::c_void, self.total);
+        }
+    }
+}
